@@ -8,6 +8,12 @@ Definition deviates (p : prog) : Prop :=
   program_ok p = true /\
   exists vs, occurrence_vars p = Some vs /\ canon Nat.eqb vs <> canon target_eqb (spec_resolve p).
 
+(* witnesses of repaired deviations: kept as regression examples *)
+Definition agrees (p : prog) : Prop :=
+  program_ok p = true /\
+  exists vs, occurrence_vars p = Some vs /\ canon Nat.eqb vs = canon target_eqb (spec_resolve p).
+Ltac agreement := split; [vm_compute; reflexivity|eexists; split; [vm_compute; reflexivity|vm_compute; reflexivity]].
+
 Ltac witness := split; [vm_compute; reflexivity|eexists; split; [vm_compute; reflexivity|vm_compute; discriminate]].
 
 (* var b; function f(a = b, b){}  — the b of the default value is the later parameter under ECMAScript,
@@ -16,19 +22,21 @@ Definition w_fwd_param : prog :=
   Decl DVar 1 (Decl DFun 5 (Func None (Decl DParam 0 (Ref 1 (Decl DParam 1 Done))) Done Done)).
 Lemma w_fwd_param_deviates : deviates w_fwd_param. Proof. witness. Qed.
 
-(* var b; function f(a = b){ b; var b }  — the body's b is the local var under ECMAScript, the model puts it
-   with the b of the default value (the outer variable) *)
+(* var b; function f(a = b){ b; var b }  — the body's b is the local var, the b of the default value the outer
+   variable.  Until /repo 6a9c7af the body's b was put with the b of the default value
+   (c04-es:default-captures-body-ref, fixed); now model and ECMAScript agree, and the shape is inside core_x *)
 Definition w_default_capture : prog :=
   Decl DVar 1 (Decl DFun 5 (Func None (Decl DParam 0 (Ref 1 Done)) (Ref 1 (Decl DVar 1 Done)) Done)).
-Lemma w_default_capture_deviates : deviates w_default_capture. Proof. witness. Qed.
+Lemma w_default_capture_agrees : agrees w_default_capture. Proof. agreement. Qed.
 
 (* a; (function a(){ var a })  — expression name and inner var are one Var in the model *)
 Definition w_funcexpr_name : prog := Ref 0 (Func (Some 0) Done (Decl DVar 0 Done) Done).
 Lemma w_funcexpr_name_deviates : deviates w_funcexpr_name. Proof. witness. Qed.
 
-(* (class a { m(){ a } })  — the inner a is not the class name in the model *)
+(* (class a { m(){ a } })  — the inner a is the class name.  Until /repo faa3812 it was not
+   (c04-es:classexpr-name, fixed) *)
 Definition w_classexpr_name : prog := Class (Some 0) (Func None Done (Ref 0 Done) Done) Done.
-Lemma w_classexpr_name_deviates : deviates w_classexpr_name. Proof. witness. Qed.
+Lemma w_classexpr_name_agrees : agrees w_classexpr_name. Proof. agreement. Qed.
 
 (* for (let b of c) { function g(){ b }  let b;  g }  — g's b is the body's b under ECMAScript, the loop
    variable in the model *)
@@ -42,10 +50,10 @@ Definition w_catch_var : prog :=
   Block Done (Catch (Decl DCatch 0 Done) (Block (Decl DVar 0 (Ref 0 Done)) Done) Done).
 Lemma w_catch_var_deviates : deviates w_catch_var. Proof. witness. Qed.
 
-(* var a; try {} catch ([b = a]) { let a }  — the a of the default value is the outer a under ECMAScript,
-   the block's a in the model *)
+(* var a; try {} catch ([b = a]) { let a }  — the a of the default value is the outer a.  Until /repo 8db4a8d
+   it was the block's a (c04-es:catch-head-ref-shadowed-in-body, fixed) *)
 Definition w_catch_head : prog :=
   Decl DVar 0 (Block Done (Catch (Decl DCatch 1 (Ref 0 Done)) (Decl DLex 0 Done) Done)).
-Lemma w_catch_head_deviates : deviates w_catch_head. Proof. witness. Qed.
+Lemma w_catch_head_agrees : agrees w_catch_head. Proof. agreement. Qed.
 
 (* ECMAScript makes "{ { var a } let a }" an early error; Declare accepts it (see also Proofs.v) *)
